@@ -277,3 +277,122 @@ Example C17_followup_nonvacuous :
   /\ freeze_env_f [[95%N]] 4 ex_env ex_st2
      = Ok ([(s "PUB", VFrozenList (Slice 0 0 1 1)); (s "_PRIV", VList (Slice 1 0 1 1)); (s "N", VInt 1)], ex_st2).
 Proof. exact (conj (proj1 union_examples) (proj1 (proj2 freeze_examples))). Qed.
+
+(* ---- deepening 3 (appended, see Proof/C17_Init1-5.v): FROM THE EMPTY INTERPRETER ----
+   (1)-(8') above start from an interpreter at rest (RestInv), closed (closed_stateb), in which every subincludable file
+   is already cached.  Here the three hypotheses are DISCHARGED for the states the interpreter reaches from the EMPTY
+   state by first-time Subincludes (parse -> Parser.optimise -> optimiseExpressions' constant folding -> interpretation
+   in a scope of its own -> scope.Freeze -> cache) of build_defs files of an executable syntactic fragment:
+     file_class base p = None:  after optimisation every top-level statement is  NAME = <scalar literal>,  NAME = [],
+       NAME = <optimised.Constant> (a constant list literal; every folded constant of the file must be a list of scalar
+       literals), or  def f(a, b=<scalar literal>, c=<non-constant expression without optimised.Constant>): <ANY body
+       without optimised.Constant - the whole language of the frame theorem and of the simulation>;
+     the three refuting classes are exactly the ways out: NestedExport (a folded constant with a nested list),
+       FuncConstant (a constant list literal inside a function), FuncDefault (a constant list as a default);
+     defs_defect_class fuel defs runs the loader packages on the model only to know the numbering base of each file's
+       constants (how many optimised.Constant objects exist when it is loaded) and classifies each file syntactically.
+   Each file is loaded by a loader package (a BUILD file consisting of `subinclude(label)`), in the order of the table.
+   (E1) after the loader packages from the empty interpreter: RestInv (with NO dead object), closed_stateb, and - when the
+        loads succeeded (their outcomes are globals, not out-of-fuel) - every file cached: the hypotheses of (6), (8), (8');
+   (E1') also when a load failed the state is at rest (for the files that are cached) and closed;
+   (E2) C17 FROM THE EMPTY INTERPRETER: for all tables of files of the fragment and ALL BUILD files h, bs run after the
+        loaders: bs have exactly the outcomes they have without h, and neither h nor bs changes anything that existed
+        before it - no hypothesis on any state is left;
+   (E3) the same induction from any state satisfying the invariant G and for any list of labels (re-loading a cached
+        label, unknown labels and failing loads included): G is preserved, the cache only grows;
+   (E4) G implies RestInv and closedness;
+   (E5) closedness, the part that follows from isolation: after ANY BUILD files from a state at rest every id in a live
+        place (live scopes, cache, live arrays / dicts) names an existing object.
+   NOT proved: that closed_stateb is preserved for the GARBAGE earlier packages leave behind (unreachable; needs its own
+   induction over the evaluator) - not needed for (E2) since h is arbitrary; a first-time Subinclude in the MIDDLE of a
+   package (the frame theorem's invariant fixes `consts`, and the renaming between "b loads the file itself" and "b finds
+   it cached" is not a shift); files outside the fragment that are not in a refuting class (top-level calls,
+   comprehensions, dicts, nested subincludes) - the executable tests rest_invb / closed_stateb still decide each
+   concrete loaded state. *)
+From PlzV Require Import Proof.C17_Init1 Proof.C17_Init2 Proof.C17_Init3 Proof.C17_Init4 Proof.C17_Init5.
+
+Definition C17_from_empty_statement : Prop :=
+  (* (E1) *)
+  (forall defs fuel outs st0, defs_defect_class fuel defs = None ->
+     run_builds Asp defs fuel (loaders defs) empty_state = (outs, st0) ->
+     forallb loadedb outs = true ->
+     RestInv defs D0 st0 /\ closed_stateb st0 = true)
+  (* (E1') *)
+  /\ (forall defs fuel outs st0, defs_defect_class fuel defs = None ->
+        run_builds Asp defs fuel (loaders defs) empty_state = (outs, st0) ->
+        RestInv [] D0 st0 /\ closed_stateb st0 = true)
+  (* (E2) *)
+  /\ (forall defs fuel h bs outs st',
+        defs_defect_class fuel defs = None ->
+        Forall (fun p => no_const p = true) (h ++ bs) ->
+        run_builds Asp defs fuel (loaders defs ++ h ++ bs) empty_state = (outs, st') ->
+        exists o0 st0 o1 st1 o2,
+          run_builds Asp defs fuel (loaders defs) empty_state = (o0, st0)
+          /\ run_builds Asp defs fuel h st0 = (o1, st1) /\ run_builds Asp defs fuel bs st1 = (o2, st') /\ outs = o0 ++ o1 ++ o2
+          /\ closed_stateb st0 = true
+          /\ (forallb loadedb o0 = true ->
+                map (@snd _ _) o2 = map (@snd _ _) (fst (run_builds Asp defs fuel bs st0))
+                /\ unchanged st0 st1 /\ unchanged st1 st'))
+  (* (E3) *)
+  /\ (forall defs fuel ls st outs st', class_run defs fuel ls st = None -> G None st ->
+        run_builds Asp defs fuel (map loader ls) st = (outs, st') ->
+        G None st' /\ (forallb loadedb outs = true -> forall l, List.In l ls -> cached l st') /\ (forall l', cached l' st -> cached l' st'))
+  (* (E4) *)
+  /\ (G None empty_state /\ forall st, G None st -> RestInv [] D0 st /\ closed_stateb st = true)
+  (* (E5) *)
+  /\ (forall defs fuel builds D st outs st', RestInv defs D st ->
+        Forall (fun p => no_const p = true) builds ->
+        run_builds Asp defs fuel builds st = (outs, st') ->
+        exists D', RestInv defs D' st' /\ live_closed D' st')
+  (* (E6) a purely syntactic sufficient condition for the classifier (no run of the model): every file of the table is in
+     the fragment for EVERY numbering base of its constants *)
+  /\ (forall defs, (forall l p base, find_def defs l = Some p -> file_class base p = None) ->
+        forall fuel, defs_defect_class fuel defs = None).
+
+Theorem C17_from_empty : C17_from_empty_statement.
+Proof.
+  exact (conj first_subincludes_establish_rest (conj first_subincludes_closed (conj packages_do_not_interfere_from_empty
+        (conj loaders_G (conj (conj G_empty (fun st HG => conj (G_rest st HG) (G_closed st HG))) (conj live_part_stays_closed fragment_table_class)))))).
+Qed.
+Print Assumptions C17_from_empty.
+
+(* Non-vacuity, from the empty interpreter: two build_defs files of the fragment (a flat list, scalars, an empty list, a
+   function with a scalar default; a list of strings, a function with a non-constant default and a list-building body)
+   are accepted, the three refuting files are rejected with their class, both loads succeed and the second file's
+   constant is numbered after the first one's, the executable tests agree with (E1), the attacking package ya (alias, +,
+   +=, + [], index assignment on the copy, map over an imported function, sorted, a call into the second file) and the
+   observer yb run to their end with the expected globals. *)
+Example C17_from_empty_nonvacuous :
+  defs_defect_class FUEL defs2 = None
+  /\ defs_defect_class FUEL [(lbl, d_nested)] = Some NestedExport
+  /\ defs_defect_class FUEL [(lbl, d_mk)] = Some FuncConstant
+  /\ defs_defect_class FUEL [(lbl, d_dflt)] = Some FuncDefault
+  /\ defs_defect_class FUEL [(lbl, d_plain)] = None
+  /\ forallb loadedb (fst (run_builds Asp defs2 FUEL (loaders defs2) empty_state)) = true
+  /\ length (consts st_init) = 2 /\ length (subcache st_init) = 2 /\ length (funcs st_init) = 2
+  /\ rest_invb defs2 D0 st_init = true /\ closed_stateb st_init = true
+  /\ forallb no_const [ya; yb] = true
+  /\ match map (@snd _ _) (fst (run_builds Asp defs2 FUEL [ya; yb] st_init)) with
+     | [OGlobals a _; OGlobals b _] =>
+         assoc_get (s "e") a = Some (OList false 0 [OInt 7; OInt 1; OInt 2])
+         /\ assoc_get (s "m") a = Some (OList false 0 [OInt 4; OInt 2; OInt 3; OInt 5])
+         /\ assoc_get (s "so") a = Some (OList false 0 [OInt 1; OInt 2; OInt 7])
+         /\ assoc_get (s "seen") b = Some (OList true 0 [OInt 3; OInt 1; OInt 2])
+         /\ assoc_get (s "i") b = Some (OInt 8)
+         /\ assoc_get (s "nm") b = Some (OList true 0 [OStr (s "a"); OStr (s "b")])
+         /\ assoc_get (s "tw") b = Some (OList false 0 [OList true 0 []; OList true 0 []])
+     | _ => False
+     end.
+Proof. exact init_examples. Qed.
+
+(* (E2) applied to that instance: yb after ya computes what it computes without ya, and ya changed nothing that the
+   loads produced - no part of the second run is computed *)
+Example C17_from_empty_applied :
+  map (@snd _ _) (fst (run_builds Asp defs2 FUEL [yb] (snd (run_builds Asp defs2 FUEL [ya] st_init)))) =
+  map (@snd _ _) (fst (run_builds Asp defs2 FUEL [yb] st_init))
+  /\ unchanged st_init (snd (run_builds Asp defs2 FUEL [ya] st_init)).
+Proof. exact init_applied. Qed.
+
+(* (E6) on the same table: computed with the numbering base left symbolic *)
+Example C17_from_empty_syntactic : forall l p base, find_def defs2 l = Some p -> file_class base p = None.
+Proof. exact defs2_in_fragment. Qed.
